@@ -5,6 +5,7 @@
 mod cmp;
 mod dictsrc;
 mod gen;
+mod proc;
 mod props;
 mod refenc;
 mod report;
